@@ -82,6 +82,7 @@ var (
 
 	ErrStop     = errors.New("vsys: no more events (end of execution)")
 	Syscalls    int
+	IntnChoice  bool // when false, rand.Intn answers 0 (no choice point)
 	WriteOracle bool // master switch for short/EAGAIN deviations on Slow sockets
 )
 
@@ -135,7 +136,7 @@ func Intn(n int) int {
 	if n <= 0 {
 		panic("invalid argument to Intn")
 	}
-	if n == 1 {
+	if n == 1 || !IntnChoice {
 		return 0
 	}
 	return Choose("intn", n)
